@@ -228,7 +228,7 @@ func TestCheckWindows(t *testing.T) {
 func genEndpoint(t *rapid.T, label string, lo int, isEnd bool) endpoint {
 	// pick a period that does not start before civil day lo
 	g := rapid.IntRange(0, 2).Draw(t, label+"g")
-	n := rapid.IntRange(lo, min(lo+rapid.SampledFrom([]int{0, 1, 3, 40, 400, 40000}).Draw(t, label+"span"), ref.LastCivilDay)).Draw(t, label+"n")
+	n := rapid.IntRange(lo, min(lo+rapid.SampledFrom([]int{0, 1, 3, 40, 400, 40000, 110000, 150000, 1000000, 3652058}).Draw(t, label+"span"), ref.LastCivilDay)).Draw(t, label+"n")
 	y, m, d := ref.FromCivilDay(n)
 	e := endpoint{Y: y, M: m, D: d}
 	switch g {
@@ -260,7 +260,7 @@ func genEndpoint(t *rapid.T, label string, lo int, isEnd bool) endpoint {
 
 func TestCheckRandom(t *testing.T) {
 	s := harness.NewSub("random-mixed-granularity",
-		"random pairs of forward ranges over years 1..9999 whose four endpoints are day, month or year dates (compared through the true first/last day of the period), lengths from one day to centuries, the second range biased to start near an endpoint of the first; non-trivial = endpoint coincidence or single-day operand; distinct by the four endpoints")
+		"random pairs of forward ranges over years 1..9999 whose four endpoints are day, month or year dates (compared through the true first/last day of the period), lengths from one day to the whole calendar (a fifth of the ranges longer than the 292 years that a time.Duration holds), the second range biased to start near an endpoint of the first; non-trivial = endpoint coincidence or single-day operand; distinct by the four endpoints")
 	s.Rapid(t, harness.Share(harness.Pick(200000, 60000000)), 60, func(rt *rapid.T) {
 		base := rapid.OneOf(rapid.IntRange(0, ref.LastCivilDay-50000), rapid.SampledFrom([]int{0, ref.CivilDay(1900, 2, 25), ref.CivilDay(2000, 2, 25), ref.CivilDay(1999, 12, 20)})).Draw(rt, "base")
 		var cs cmpCase
